@@ -31,6 +31,7 @@ VARIABLES l,        \* next line of the trace
           ncrash,   \* crashes so far in this run
           flt,      \* an injected fault has fired and may still have consequences
           clr,      \* the injected faults have been cleared (next Open is a clean restart)
+          pend,     \* StoreLogs calls that failed under a fault: their bytes may still be in the file
           trunc,    \* an effective truncation has been submitted on this execution path
           bad,      \* a violation was recorded in this fork: stop judging it
           ckpt,     \* mark id -> saved judge state
@@ -38,7 +39,7 @@ VARIABLES l,        \* next line of the trace
           viol,     \* recorded violations
           nobs      \* number of observations judged (evidence)
 
-vars == <<l, fam, vis, dur, kvis, kdur, sub, created, ncrash, flt, clr, trunc, bad, ckpt, cnt, viol, nobs>>
+vars == <<l, fam, vis, dur, kvis, kdur, sub, created, ncrash, flt, clr, pend, trunc, bad, ckpt, cnt, viol, nobs>>
 
 ----------------------------------------------------------------------------
 (* The contract operators (Empty, First, Last, Get, PreStore, ApplyStore,   *)
@@ -58,42 +59,42 @@ ZeroCnt == [appends |-> 0, entries |-> 0, bytesw |-> 0, htrunc |-> 0, ttrunc |->
 
 Init == /\ l = 1 /\ fam = "seq" /\ vis = {Empty} /\ dur = {Empty}
         /\ kvis = <<>> /\ kdur = <<>> /\ sub = <<>> /\ created = {}
-        /\ ncrash = 0 /\ flt = FALSE /\ clr = FALSE /\ trunc = FALSE /\ bad = FALSE /\ ckpt = <<>>
+        /\ ncrash = 0 /\ flt = FALSE /\ clr = FALSE /\ pend = <<>> /\ trunc = FALSE /\ bad = FALSE /\ ckpt = <<>>
         /\ cnt = ZeroCnt /\ viol = {} /\ nobs = 0
 
 Reset == /\ Is("reset") /\ Adv
          /\ fam' = Ev.family /\ vis' = {Empty} /\ dur' = {Empty}
          /\ kvis' = <<>> /\ kdur' = <<>> /\ sub' = <<>> /\ created' = {}
-         /\ ncrash' = 0 /\ flt' = FALSE /\ clr' = FALSE /\ trunc' = FALSE /\ bad' = FALSE /\ ckpt' = <<>>
+         /\ ncrash' = 0 /\ flt' = FALSE /\ clr' = FALSE /\ pend' = <<>> /\ trunc' = FALSE /\ bad' = FALSE /\ ckpt' = <<>>
          /\ cnt' = ZeroCnt
          /\ UNCHANGED <<viol, nobs>>
 
 Saved == [vis |-> vis, dur |-> dur, kvis |-> kvis, kdur |-> kdur, sub |-> sub, created |-> created,
-          ncrash |-> ncrash, flt |-> flt, clr |-> clr, trunc |-> trunc, bad |-> bad, cnt |-> cnt]
+          ncrash |-> ncrash, flt |-> flt, clr |-> clr, pend |-> pend, trunc |-> trunc, bad |-> bad, cnt |-> cnt]
 
 Mark == /\ Is("mark") /\ Adv
         /\ ckpt' = PutK(ckpt, Ev.id, Saved)
-        /\ UNCHANGED <<fam, vis, dur, kvis, kdur, sub, created, ncrash, flt, clr, trunc, bad, cnt, viol, nobs>>
+        /\ UNCHANGED <<fam, vis, dur, kvis, kdur, sub, created, ncrash, flt, clr, pend, trunc, bad, cnt, viol, nobs>>
 
 Restore == /\ Is("restore") /\ Adv
            /\ LET s == ckpt[Ev.id] IN
               /\ vis' = s.vis /\ dur' = s.dur /\ kvis' = s.kvis /\ kdur' = s.kdur /\ sub' = s.sub
-              /\ created' = s.created /\ ncrash' = s.ncrash /\ flt' = s.flt /\ clr' = s.clr /\ trunc' = s.trunc
+              /\ created' = s.created /\ ncrash' = s.ncrash /\ flt' = s.flt /\ clr' = s.clr /\ pend' = s.pend /\ trunc' = s.trunc
               /\ bad' = s.bad /\ cnt' = s.cnt
            /\ UNCHANGED <<fam, ckpt, viol, nobs>>
 
 (* marks of a finished fork are dropped (keeps the judge state small) *)
 Unmark == /\ Is("unmark") /\ Adv
           /\ ckpt' = [k \in {x \in DOMAIN ckpt : x < Ev.from} |-> ckpt[k]]
-          /\ UNCHANGED <<fam, vis, dur, kvis, kdur, sub, created, ncrash, flt, clr, trunc, bad, cnt, viol, nobs>>
+          /\ UNCHANGED <<fam, vis, dur, kvis, kdur, sub, created, ncrash, flt, clr, pend, trunc, bad, cnt, viol, nobs>>
 
 (* everything between a violation and the next restore/reset is skipped *)
 Skip == /\ l <= Len(Trace) /\ bad /\ Ev.ev \notin {"reset", "mark", "restore", "unmark"} /\ Adv
-        /\ UNCHANGED <<fam, vis, dur, kvis, kdur, sub, created, ncrash, flt, clr, trunc, bad, ckpt, cnt, viol, nobs>>
+        /\ UNCHANGED <<fam, vis, dur, kvis, kdur, sub, created, ncrash, flt, clr, pend, trunc, bad, ckpt, cnt, viol, nobs>>
 
 Live(k) == Is(k) /\ ~bad /\ Adv
 
-Same == UNCHANGED <<fam, vis, dur, kvis, kdur, sub, created, ncrash, flt, clr, trunc, ckpt, cnt>>
+Same == UNCHANGED <<fam, vis, dur, kvis, kdur, sub, created, ncrash, flt, clr, pend, trunc, ckpt, cnt>>
 
 (* keep dur in step with vis outside the fault family (see 4.7) *)
 SetVis(S) == /\ vis' = S /\ dur' = IF fam = "fault" THEN dur ELSE S
@@ -113,6 +114,7 @@ Store ==
   /\ Live("store")
   /\ NoteSub(Ev)
   /\ flt' = (flt \/ (fam = "fault" /\ Ev.fault)) /\ clr' = clr
+  /\ pend' = IF Ev.res # "ok" /\ Faulty THEN Append(pend, Ev) ELSE pend
   /\ nobs' = nobs + 1
   /\ UNCHANGED <<fam, kvis, kdur, created, ncrash, trunc, ckpt>>
   /\ IF Ev.res = "ok"
@@ -139,7 +141,7 @@ NTrunc(S, op) ==     \* number of entries the truncation removes (same in every 
 
 Delete ==
   /\ Live("delete")
-  /\ flt' = (flt \/ (fam = "fault" /\ Ev.fault)) /\ clr' = clr
+  /\ flt' = (flt \/ (fam = "fault" /\ Ev.fault)) /\ clr' = clr /\ pend' = pend
   /\ nobs' = nobs + 1
   /\ trunc' = (trunc \/ \E s \in vis : DelClass(s, Ev.min, Ev.max) \in {"head", "tail"})
   /\ UNCHANGED <<fam, kvis, kdur, sub, created, ncrash, ckpt>>
@@ -165,7 +167,7 @@ Delete ==
 SetK ==
   /\ Live("set")
   /\ nobs' = nobs + 1
-  /\ flt' = (flt \/ (fam = "fault" /\ Ev.fault)) /\ clr' = clr
+  /\ flt' = (flt \/ (fam = "fault" /\ Ev.fault)) /\ clr' = clr /\ pend' = pend
   /\ UNCHANGED <<fam, vis, dur, sub, created, ncrash, trunc, ckpt>>
   /\ cnt' = [cnt EXCEPT !.sets = @ + 1]
   /\ IF Ev.res = "ok"
@@ -189,19 +191,27 @@ Crash ==
         THEN LET d == PutK(kdur, op.key, GetK(kdur, op.key) \cup {op.val}) IN kvis' = d /\ kdur' = d
         ELSE kvis' = kdur /\ kdur' = kdur
   /\ ncrash' = ncrash + 1
-  /\ UNCHANGED <<fam, created, flt, clr, ckpt, cnt, viol, bad, nobs>>
+  /\ UNCHANGED <<fam, created, flt, clr, pend, ckpt, cnt, viol, bad, nobs>>
+
+(* A StoreLogs that failed under a fault is invisible in-process, but its bytes may have reached the *)
+(* file; unless a later append overwrote them, a restart may find the batch (applied in full).      *)
+RECURSIVE Resurface(_, _)
+Resurface(S, p) == IF p = <<>> THEN S
+                   ELSE Resurface(S \cup {ApplyStore(s, p[1].idxs, p[1].cids) : s \in {t \in S : PreStore(t, p[1].idxs)}}, Tail(p))
 
 Open ==
   /\ Live("open")
   /\ nobs' = nobs + 1
-  /\ UNCHANGED <<fam, sub, created, ncrash, trunc, ckpt, dur, kdur, clr>>
+  /\ UNCHANGED <<fam, sub, created, ncrash, trunc, ckpt, kdur, clr>>
   /\ cnt' = cnt
   /\ IF Ev.res = "ok"
      THEN \* a clean restart after the faults were cleared: no fault is active any more
-          /\ vis' = dur /\ kvis' = kdur /\ flt' = (flt /\ ~clr) /\ UNCHANGED <<viol, bad>>
+          /\ LET d == Resurface(dur, pend) IN vis' = d /\ dur' = d
+          /\ pend' = <<>>
+          /\ kvis' = kdur /\ flt' = (flt /\ ~clr) /\ UNCHANGED <<viol, bad>>
      ELSE IF fam = "fault" /\ (flt \/ Ev.fault) /\ ~clr
-     THEN /\ flt' = TRUE /\ UNCHANGED <<vis, kvis, viol, bad>>   \* Open failed under an injected fault: allowed
-     ELSE /\ V("OpenFailed") /\ bad' = TRUE /\ UNCHANGED <<vis, kvis, flt>>
+     THEN /\ flt' = TRUE /\ UNCHANGED <<vis, dur, pend, kvis, viol, bad>>   \* Open failed under an injected fault: allowed
+     ELSE /\ V("OpenFailed") /\ bad' = TRUE /\ UNCHANGED <<vis, dur, pend, kvis, flt>>
 
 Close ==
   /\ Live("close")
@@ -211,7 +221,7 @@ Close ==
 FaultsCleared ==
   /\ Live("faults_cleared")
   /\ clr' = TRUE
-  /\ UNCHANGED <<viol, bad, nobs, fam, vis, dur, kvis, kdur, sub, created, ncrash, flt, trunc, ckpt, cnt>>
+  /\ UNCHANGED <<viol, bad, nobs, fam, vis, dur, kvis, kdur, sub, created, ncrash, flt, pend, trunc, ckpt, cnt>>
 
 Panic ==
   /\ Live("panic")
@@ -222,7 +232,7 @@ Panic ==
 ObsFirst ==
   /\ Live("first")
   /\ nobs' = nobs + 1
-  /\ UNCHANGED <<fam, kvis, kdur, sub, created, ncrash, flt, clr, trunc, ckpt, cnt>>
+  /\ UNCHANGED <<fam, kvis, kdur, sub, created, ncrash, flt, clr, pend, trunc, ckpt, cnt>>
   /\ IF Ev.res # "ok" THEN /\ V("FirstError") /\ bad' = TRUE /\ UNCHANGED <<vis, dur>>
      ELSE LET S == {s \in vis : First(s) = Ev.val} IN
           IF S = {} THEN /\ V("FirstMismatch") /\ bad' = TRUE /\ UNCHANGED <<vis, dur>>
@@ -231,7 +241,7 @@ ObsFirst ==
 ObsLast ==
   /\ Live("last")
   /\ nobs' = nobs + 1
-  /\ UNCHANGED <<fam, kvis, kdur, sub, created, ncrash, flt, clr, trunc, ckpt, cnt>>
+  /\ UNCHANGED <<fam, kvis, kdur, sub, created, ncrash, flt, clr, pend, trunc, ckpt, cnt>>
   /\ IF Ev.res # "ok" THEN /\ V("LastError") /\ bad' = TRUE /\ UNCHANGED <<vis, dur>>
      ELSE LET S == {s \in vis : Last(s) = Ev.val} IN
           IF S = {} THEN /\ V("LastMismatch") /\ bad' = TRUE /\ UNCHANGED <<vis, dur>>
@@ -243,7 +253,7 @@ ObsGet ==
   /\ Live("get")
   /\ nobs' = nobs + 1
   /\ cnt' = [cnt EXCEPT !.reads = @ + 1, !.bytesr = @ + Ev.nbytes]
-  /\ UNCHANGED <<fam, kvis, kdur, sub, created, ncrash, flt, clr, trunc, ckpt>>
+  /\ UNCHANGED <<fam, kvis, kdur, sub, created, ncrash, flt, clr, pend, trunc, ckpt>>
   /\ LET i == Ev.idx
          got == IF Ev.res = "ok" THEN Ev.cid ELSE 0
          S == {s \in vis : Get(s, i) = got}
@@ -260,7 +270,7 @@ ObsGetK ==
   /\ Live("getk")
   /\ nobs' = nobs + 1
   /\ cnt' = [cnt EXCEPT !.gets = @ + 1]
-  /\ UNCHANGED <<fam, vis, dur, kdur, sub, created, ncrash, flt, clr, trunc, ckpt>>
+  /\ UNCHANGED <<fam, vis, dur, kdur, sub, created, ncrash, flt, clr, pend, trunc, ckpt>>
   /\ IF Ev.res # "ok" THEN /\ V("GetKError") /\ bad' = TRUE /\ kvis' = kvis
      ELSE IF Ev.val \in GetK(kvis, Ev.key)
      THEN /\ kvis' = PutK(kvis, Ev.key, {Ev.val}) /\ UNCHANGED <<viol, bad>>
@@ -285,7 +295,7 @@ ObsCreat ==
      ELSE IF \E p \in created : p[1] = Ev.id /\ p[2] # Ev.base THEN /\ V("SegmentIDReused") /\ bad' = TRUE
      ELSE IF Ev.res # "ok" THEN /\ V("CreateCollision") /\ bad' = TRUE
      ELSE UNCHANGED <<viol, bad>>
-  /\ UNCHANGED <<fam, vis, dur, kvis, kdur, sub, ncrash, flt, clr, trunc, ckpt, cnt>>
+  /\ UNCHANGED <<fam, vis, dur, kvis, kdur, sub, ncrash, flt, clr, pend, trunc, ckpt, cnt>>
 
 ObsMetrics ==
   /\ Live("metrics")
@@ -320,7 +330,7 @@ Finish ==
   /\ l = Len(Trace) + 1
   /\ PrintT(<<"VIOL", ToJson([v |-> viol, nobs |-> nobs])>>)
   /\ l' = l + 1
-  /\ UNCHANGED <<fam, vis, dur, kvis, kdur, sub, created, ncrash, flt, clr, trunc, bad, ckpt, cnt, viol, nobs>>
+  /\ UNCHANGED <<fam, vis, dur, kvis, kdur, sub, created, ncrash, flt, clr, pend, trunc, bad, ckpt, cnt, viol, nobs>>
 
 Next == \/ Reset \/ Mark \/ Restore \/ Unmark \/ Skip
         \/ Store \/ Delete \/ SetK \/ Crash \/ Open \/ Close \/ FaultsCleared \/ Panic
